@@ -775,7 +775,9 @@ class LLMRails:
                 cache_key = get_events_history_cache_key(messages + [new_message])
                 self.events_history_cache[cache_key] = events
             else:
-                output_state = {"events": events}
+                # The output state must carry the whole conversation, not only the events of this call:
+                # the next call replays `state["events"]` to rebuild the flow states and the context.
+                output_state = {"events": state_events + events}
 
         # If logging is enabled, we log the conversation
         # TODO: add support for logging flag
